@@ -397,6 +397,11 @@ static void gen_search(vh_rng_t *rng)
         snprintf(r->name, sizeof(r->name), "%s", sm.qname[i]);
         r->qtype  = fail_t;
         r->action = so_action[other[vh_below(rng, 5)]];
+        if (strchr(sm.qname[i], '.') == NULL && vh_chance(rng, 2, 3)) {
+          /* a single-label candidate: SERVFAIL / REFUSED are the statuses the library treats specially for those
+           * (it moves on where it would otherwise stop) - not when the other family already brought data */
+          r->action = so_action[other[vh_below(rng, 2)]];
+        }
         r->nrec   = 1;
         r->ttl    = 120;
         sim_note("search_split_outcome_candidate");
